@@ -808,7 +808,8 @@ pub trait StoreFor<T: Storable>: Configurable + private::StoreCallbacks<T> {
     #[inline]
     fn has(&self, item: impl Request<T>) -> bool {
         if let Some(handle) = item.to_handle(self) {
-            self.store().get(handle.as_usize()).is_some()
+            //a removed item leaves a None behind, which does not count
+            matches!(self.store().get(handle.as_usize()), Some(Some(_)))
         } else {
             false
         }
@@ -882,7 +883,7 @@ pub trait StoreFor<T: Storable>: Configurable + private::StoreCallbacks<T> {
     /// This is a low-level API method. You usually don't want to call this directly.
     fn resolve_id(&self, id: &str) -> Result<T::HandleType, StamError> {
         if let Some(idmap) = self.idmap() {
-            if idmap.resolve_temp_ids {
+            if idmap.resolve_temp_ids && id.starts_with(T::temp_id_prefix()) {
                 if let Some(handle) = resolve_temp_id(id) {
                     return Ok(T::HandleType::new(handle));
                 }
